@@ -252,7 +252,7 @@ func checkProps(o obs, payloads [][]byte, nbits int) []failure {
 
 // ops (tokens separated by ','):
 //  M n            new message of n bytes (always first)
-//  NS k size      standard signal k with an unsigned integer type of `size` bits
+//  NS k size      standard signal k with an integer type of `size` bits (signed iff k+size is odd)
 //  NE k e         enum signal k on enum e          NX k count gsize   multiplexer signal k
 //  EN e min       new enum e                        EA e idx  ER e j  EM e min  EU e j idx  EC e
 //  AP k           AppendSignal    IN k start  InsertSignal    RM k  RemoveSignal
@@ -283,7 +283,8 @@ func runHistory(ops []string) *world {
 		case "M":
 			w.msg = acmelib.NewMessage("m", 1, at(f, 1))
 		case "NS":
-			t, err := acmelib.NewIntegerSignalType(fmt.Sprintf("t%d", at(f, 2)), at(f, 2), false)
+			// signedness does not matter for the layout; RawValue must be the payload bits either way
+			t, err := acmelib.NewIntegerSignalType(fmt.Sprintf("t%d", at(f, 2)), at(f, 2), (at(f, 1)+at(f, 2))%2 == 1)
 			if err != nil {
 				continue
 			}
